@@ -215,7 +215,27 @@ def r4(ctx, ty, m, disc):
         hdrs = [h for h in cfg.loop_headers() if pushes[0] in cfg.loop_of(h)]
         paired = bool(hdrs) and all(not cfg.reaches(p, hdrs[0], avoid=[w.bb for w in incs]) for p in pushes) and all(not cfg.reaches(resets[0].bb, w.bb, avoid=pushes) for w in incs)
         reset_outside = bool(hdrs) and resets[0].bb not in cfg.loop_of(hdrs[0])
-        ok = inc_ok and reset_dom and paired and reset_outside
+        # every call that returns an item passes the reset (an early return before it would leave a stale count for skip_subtree)
+        from ..mir import EXIT
+        pop_bb = [bb for bb, t in b.calls() if Callee(t['func']).name.startswith('pop')]
+        some_ret = True
+        if pop_bb:
+            sw = pop_bb[0]
+            for _ in range(6):
+                tt = b.blocks[sw]['term']
+                if tt['k'] == 'switch':
+                    break
+                sw = tt.get('target', sw) if tt.get('target') is not None else sw
+            for e in cfg.edge_nodes(sw):
+                lab = cfg.edge_label[e]
+                # the Continue/Some outcome of the pop
+                if lab == ('sw', (0,)) or lab == ('sw', (1,)):
+                    from ..mir import edge_literal
+                    lit = edge_literal(b, R, sw, lab)
+                    if lit and lit[0] == 'is' and set(lit[2]) & {'Continue', 'Some'}:
+                        if cfg.reaches(e, EXIT, avoid=[resets[0].bb]):
+                            some_ret = False
+        ok = inc_ok and reset_dom and paired and reset_outside and some_ret
     if ok:
         ctx.ok('C13.R4', site, 'last_push := 0 before the child loop; each enqueue is followed by last_push += 1', b.span)
     else:
